@@ -158,7 +158,120 @@ def t_fetchall(src):
                            stmt_hook=Hook(wrap_some=False))
 
 
-TRANSLATORS = (("fetchone", t_fetchone), ("fetchmany", t_fetchmany), ("fetchall", t_fetchall))
+# ----------------------------------------------------------------------------- the lazy views: select / filter / take
+#
+# Each hands out `DataFrame(rows=<generator>, …)`.  The generator is translated as the list it produces (Python's
+# generator protocol — one row per `next`, laziness — is trusted): `Props/C04.lean` proves each list equal to the
+# concatenation of one chunk of one or zero rows per parent row, which is the shape the lazy clause is proved for.
+
+
+def _view_ex(env):
+    box = {}
+
+    def hook(n, go):
+        if isinstance(n, ast.Call) and isinstance(n.func, ast.Name) and not n.keywords:
+            if n.func.id == "zip" and len(n.args) == 2:
+                return "((%s).zip (%s))" % (go(n.args[0]), go(n.args[1]))
+            if n.func.id == "enumerate" and len(n.args) == 1:
+                return "(((%s).zipIdx).map (fun (x_, i_) => (i_, x_)))" % go(n.args[0])
+            if n.func.id == "tuple" and len(n.args) == 1:
+                return go(n.args[0])  # a row is the list of its values
+        if isinstance(n, ast.GeneratorExp):
+            return box["ex"].comp(n.generators, n.elt)
+        if isinstance(n, ast.Subscript) and not isinstance(n.slice, ast.Slice):
+            return "(get %s %s)" % (go(n.value), go(n.slice))
+        return None
+
+    box["ex"] = pystmt.Expr(env=env, hook=hook)
+    return box["ex"]
+
+
+def _rows_keyword(fn, which="DataFrame"):
+    calls = [n for n in ast.walk(fn) if isinstance(n, ast.Call) and ast.unparse(n.func) == which]
+    rets = [s for s in fn.body if isinstance(s, ast.Return)]
+    if len(calls) != 1 or len(rets) != 1 or rets[0].value is not calls[0] or calls[0].args:
+        raise Untranslatable("%s does not end in one `return DataFrame(…)`" % fn.name)
+    kw = [k for k in calls[0].keywords if k.arg == "rows"]
+    if len(kw) != 1:
+        raise Untranslatable("rows= of %s" % fn.name)
+    return kw[0].value
+
+
+def _snapshot_of_rows(s):
+    """`rows = self._rows[:]`, `rows = list(self._rows)` or `rows = self._rows[:] if isinstance(self._rows, list) else self._rows`:
+    a local snapshot of the rows held now (repair C05-F05).  In the model rows are values, so the local is the row list
+    itself.  Returns the local's name or None."""
+    if not (isinstance(s, ast.Assign) and len(s.targets) == 1 and isinstance(s.targets[0], ast.Name)):
+        return None
+    v = s.value
+
+    def is_rows(n):
+        return ast.unparse(n) == "self._rows"
+
+    def is_copy(n):
+        if isinstance(n, ast.Subscript) and is_rows(n.value) and isinstance(n.slice, ast.Slice) \
+                and n.slice.lower is None and n.slice.upper is None and n.slice.step is None:
+            return True
+        return isinstance(n, ast.Call) and isinstance(n.func, ast.Name) and n.func.id == "list" and len(n.args) == 1 \
+            and is_rows(n.args[0]) and not n.keywords
+
+    if is_copy(v):
+        return s.targets[0].id
+    if isinstance(v, ast.IfExp) and ast.unparse(v.test) == "isinstance(self._rows, list)" and is_copy(v.body) and is_rows(v.orelse):
+        return s.targets[0].id
+    return None
+
+
+def _only_docstring_before_return(fn):
+    """Returns the names of local snapshots of `self._rows` made before the return (they stand for the row list)."""
+    names = []
+    for s in fn.body[:-1]:
+        if isinstance(s, ast.Expr) and isinstance(s.value, ast.Constant):
+            continue
+        nm = _snapshot_of_rows(s)
+        if nm is None:
+            raise Untranslatable("statement before the return of %s: %s" % (fn.name, ast.unparse(s)[:40]))
+        names.append(nm)
+    return names
+
+
+def t_filter(src):
+    fn = src.func("filter", "DataFrame")
+    _check_sig(fn, ["self", "mask"])
+    snaps = _only_docstring_before_return(fn)
+    ex = _view_ex(dict({"self._rows": "rows"}, **{nm: "rows" for nm in snaps}))
+    ex.bound.add("mask")
+    return "def filterRows (rows : List α) (mask : List Bool) : List α :=\n  %s\n" % ex.go(_rows_keyword(fn))
+
+
+def t_take(src):
+    fn = src.func("take", "DataFrame")
+    _check_sig(fn, ["self", "indexes"])
+    snaps = _only_docstring_before_return(fn)
+    ex = _view_ex(dict({"self._rows": "rows"}, **{nm: "rows" for nm in snaps}))
+    ex.bound.add("indexes")
+    return "def takeRows (rows : List α) (indexes : List Nat) : List α :=\n  %s\n" % ex.go(_rows_keyword(fn))
+
+
+def t_select(src):
+    """`_inner_projection`: `for tup in self._rows: yield tuple([tup[indice] for indice in attribute_indices])`."""
+    fn = src.func("select", "DataFrame")
+    _check_sig(fn, ["self", "attributes"])
+    inner = [s for s in fn.body if isinstance(s, ast.FunctionDef)]
+    if len(inner) != 1 or inner[0].args.args:
+        raise Untranslatable("select: one nested generator without parameters")
+    rows_kw = _rows_keyword(fn)
+    if ast.unparse(rows_kw) != inner[0].name + "()":
+        raise Untranslatable("select: rows= is not the nested generator")
+    # which columns: `attribute_indices` is computed from the names before; the generator only uses it
+    ex = _view_ex({"self._rows": "rows"})
+    ex.bound.add("attribute_indices")
+    return ("def selectRows {β : Type} (get : α → Nat → β) (rows : List α) (attribute_indices : List Nat) : List (List β) :=\n  %s\n"
+            % pystmt.generator_as_list(inner[0], ex))
+
+
+TRANSLATORS = (("fetchone", t_fetchone), ("fetchmany", t_fetchmany), ("fetchall", t_fetchall),
+               ("filterRows", t_filter), ("takeRows", t_take), ("selectRows", t_select))
 
 
 def _pinned():
